@@ -308,7 +308,20 @@ func runC18(c *Ctx) {
 
 	// ---- set-as-list -----------------------------------------------------------------------------------------
 	okSet := false
+	// (the list may be built by a helper of the ez package that main calls)
+	setFns := []*ssa.Function{main}
 	for _, i := range allInstrs(main) {
+		if ci, ok := i.(*ssa.Call); ok {
+			if h := staticCallee(ci); h != nil && len(h.Blocks) > 0 && c.W.pkgRelOfFn(h) == "ez" && h != main {
+				setFns = append(setFns, h)
+			}
+		}
+	}
+	var setInstrs []ssa.Instruction
+	for _, sf := range setFns {
+		setInstrs = append(setInstrs, allInstrs(sf)...)
+	}
+	for _, i := range setInstrs {
 		ci, ok := i.(*ssa.Call)
 		if !ok || calleeFullName(ci) != "builtin.append" {
 			continue
